@@ -12,6 +12,9 @@ NOT_APPLICABLE = {
            'decide (merge_all_tokens) is not a necessary condition of the model-level property because add_to masks '
            'its failures. No clause is both visible in the shape of the code and necessary; see DESIGN.md section 3 C12.',
 }
+# properties whose checker was reviewed, runs clean (or with listed known findings) on the pinned tree and was
+# exercised with breaking / benign edits.  Anything else stays under not_applicable as "pending".
+READY = ['C16', 'C18']
 PENDING = 'checker for this property is not built yet in this session (design in DESIGN.md); not claimed until it is'
 
 
@@ -23,6 +26,8 @@ def main():
             na.append({'property_id': pid, 'reason': NOT_APPLICABLE[pid]})
             continue
         try:
+            if pid not in READY:
+                raise ImportError('not accepted yet')
             mod = importlib.import_module('sa.props.' + pid.lower())
             meta = mod.META
         except (ImportError, AttributeError):
